@@ -37,9 +37,10 @@ def index_consistent(kind, nsamp, s, n, i):
         tj = tr.get_trajectory(sp, i)
         if len(tj) != nsamp or tj.value[n] != expect or tj.units != units:
             return False
-        mg = tr.get_trajectory(sp, 0, merge=True)
-        if len(mg) != nsamp or mg.value[n] != sum(n * ns * nc + s * nc + j for j in range(nc)):
-            return False
+        for pos in (0, i):            # the position is ignored when merging: any (valid) position gives the sum over ALL cells
+            mg = tr.get_trajectory(sp, pos, merge=True)
+            if len(mg) != nsamp or mg.value[n] != sum(n * ns * nc + s * nc + j for j in range(nc)):
+                return False
     whole = tr.get_state(None, n)
     if len(whole) != ns * nc or list(whole.value) != [float(n * ns * nc + k) for k in range(ns * nc)]:
         return False
